@@ -501,11 +501,14 @@ func (c *cluster) logOf(n *simNode) (map[int64]string, int64, int64) {
 		if p.IsPaused() {
 			return
 		}
+		// The high watermark is read first: reading the log takes simulated steps during which the
+		// replica may truncate its uncommitted tail and fetch other messages; what is at or below
+		// the high watermark read now is committed and does not change any more.
+		hw = p.log.HighWatermark()
 		msgs, _ := readCommitLog(p.log)
 		for _, m := range msgs {
 			out[m.off] = string(m.val)
 		}
-		hw = p.log.HighWatermark()
 		newest = p.log.NewestOffset()
 	})
 	return out, hw, newest
